@@ -159,12 +159,16 @@ func runC11(p *eng.Prog, r *eng.Report, tier string) {
 				continue
 			}
 			found++
-			c.dom("C11.3", f, cl, "PRECIS enforcement of "+k.param, []string{"!eq(" + k.param + ",\"\")"})
+			c.domAny("C11.3", f, cl, "PRECIS enforcement of "+k.param, nonEmptyAlts(k.param))
 			if k.valid != "" {
 				c.dom("C11.3", f, cl, "UTF-8 validation before enforcement of "+k.param, []string{k.valid})
 			}
 			// every success return on the non-empty edge passes this call
-			for _, ce := range g.EdgesMatching("!eq(" + k.param + ",\"\")") {
+			var neEdges []eng.CondEdge
+			for _, alt := range nonEmptyAlts(k.param) {
+				neEdges = append(neEdges, g.EdgesMatching(alt)...)
+			}
+			for _, ce := range neEdges {
 				for _, rs := range g.Returns {
 					rp, _ := g.Where(rs)
 					if g.RetKindOf(rs) == eng.RetError || !g.Reachable(g.EdgeTarget(ce.E), rp, nil, nil) {
@@ -336,26 +340,9 @@ func runC11(p *eng.Prog, r *eng.Report, tier string) {
 			c.r.Check("C11.6", f, "derived address", "E-aff: "+a.fn+" keeps data["+a.lo+":"+a.hi+"] with lengths ("+a.ll+","+a.dl+")", cl.Pos(), okB, "literal is "+f.Norm(cl, nil))
 		}
 	}
-	eq := c.fn("C11.6", "jid", "JID.Equal")
-	if eq != nil {
-		g := eq.Graph()
-		okLens, okData := false, false
-		for _, rs := range g.Returns {
-			pt, _ := g.Where(rs)
-			s := g.Formula(rs.Results[0], true, pt).String()
-			if strings.Contains(s, "eq(p0.locallen,recv.locallen)") && strings.Contains(s, "eq(p0.domainlen,recv.domainlen)") {
-				okLens = true
-				// that return is reached only with equal bytes
-				okd, _ := g.DominatedAny(pt, []string{"!or(*)", "eq(builtin.len(p0.data),builtin.len(recv.data))", "bytes.Equal(*)"})
-				okData = okd
-			}
-			if eng.Glob("and(*bytes.Equal(*", s) && strings.Contains(s, "locallen") && strings.Contains(s, "domainlen") {
-				okLens, okData = true, true
-			}
-		}
-		c.r.Check("C11.6", eq, "Equal compares both lengths", "T: Equal requires equal locallen AND equal domainlen (equal bytes alone do not make equal addresses)", eq.Pos(), okLens, "the true result does not compare locallen and domainlen")
-		c.r.Check("C11.6", eq, "Equal compares the bytes", "T: the true result is reached only with equal data", eq.Pos(), okData, "")
-	}
+	jidEqualRule(c, "C11.6")
+	c11LocalLenIsEnforcedLen(c, "C11.11")
+	c11NoRawPartAppended(c, "C11.12")
 	st := c.fn("C11.6", "jid", "JID.String")
 	if st != nil {
 		g := st.Graph()
@@ -595,4 +582,241 @@ func affineTerm(f *eng.Fn, e ast.Expr) string {
 		}
 	}
 	return f.Norm(e, nil)
+}
+
+// jidEqualRule: JID.Equal yields true only for equal bytes AND equal locallen
+// AND equal domainlen, each compared between the receiver and the argument
+// (the same bytes with a shifted part boundary are a different address:
+// example.net vs example.ne/t). Shared by the properties that rely on address
+// comparison (restart header check C12/C02, ibb peer check, muc).
+func jidEqualRule(c *cx, id string) {
+	eq := c.fn(id, "jid", "JID.Equal")
+	if eq == nil {
+		return
+	}
+	g := eq.Graph()
+	has := func(s string, alts ...string) bool {
+		for _, a := range alts {
+			if strings.Contains(s, a) {
+				return true
+			}
+		}
+		return false
+	}
+	okLens, okData := false, false
+	for _, rs := range g.Returns {
+		pt, _ := g.Where(rs)
+		s := g.Formula(rs.Results[0], true, pt).String()
+		ll := has(s, "eq(p0.locallen,recv.locallen)", "eq(recv.locallen,p0.locallen)")
+		dl := has(s, "eq(p0.domainlen,recv.domainlen)", "eq(recv.domainlen,p0.domainlen)")
+		if !ll || !dl {
+			continue
+		}
+		okLens = true
+		if has(s, "bytes.Equal(recv.data,p0.data)", "bytes.Equal(p0.data,recv.data)", "eq(conv:string(recv.data),conv:string(p0.data))", "eq(conv:string(p0.data),conv:string(recv.data))") {
+			okData = true
+			continue
+		}
+		// the hand-written loop: that return is reached only with equal bytes
+		okd, _ := g.DominatedAny(pt, []string{"eq(builtin.len(p0.data),builtin.len(recv.data))", "eq(builtin.len(recv.data),builtin.len(p0.data))"})
+		okData = okData || okd
+	}
+	c.r.Check(id, eq, "Equal compares both lengths", "T: Equal requires equal locallen AND equal domainlen, each between receiver and argument (equal bytes alone do not make equal addresses)", eq.Pos(), okLens, "the true result does not compare recv.locallen with p0.locallen and recv.domainlen with p0.domainlen")
+	c.r.Check(id, eq, "Equal compares the bytes", "T: the true result is reached only with equal data", eq.Pos(), okData, "")
+}
+
+// nonEmptyAlts lists the spellings of "the string x is not empty" as facts.
+func nonEmptyAlts(x string) []string {
+	return []string{"!eq(" + x + ",\"\")", "lt(0,builtin.len(" + x + "))", "!lt(builtin.len(" + x + "),1)", "!eq(builtin.len(" + x + "),0)"}
+}
+
+// c11LocalLenIsEnforcedLen (C11.11, also C09.21): the localpart length that New
+// and WithLocal store is the length of the ENFORCED localpart: every definition
+// that reaches the stored value is zero, or len(buf) taken at a point where
+// every definition of buf that reaches is the empty allocation or the result
+// of UsernameCaseMapped.Append. PRECIS changes the length (NFC composition,
+// width mapping, case folding of U+1E9E): the raw len(localpart) puts the part
+// boundaries in the wrong place and data[locallen+domainlen:] can slice out of
+// range - jid.Parse on a peer's from attribute then panics in the serve loop.
+func c11LocalLenIsEnforcedLen(c *cx, id string) {
+	n := 0
+	for _, name := range []string{"New", "JID.WithLocal"} {
+		f := c.fn(id, "jid", name)
+		if f == nil {
+			continue
+		}
+		g := f.Graph()
+		var vals []struct {
+			e  ast.Expr
+			pt eng.Point
+		}
+		for _, cl := range f.WalkLits("jid.JID") {
+			if v := structLitField(cl, "locallen"); v != nil {
+				pt, _ := g.Where(cl)
+				vals = append(vals, struct {
+					e  ast.Expr
+					pt eng.Point
+				}{v, pt})
+			}
+		}
+		for _, w := range f.FieldWrites("jid.JID.locallen") {
+			if w.RHS != nil {
+				pt, _ := g.Where(w.Stmt)
+				vals = append(vals, struct {
+					e  ast.Expr
+					pt eng.Point
+				}{w.RHS, pt})
+			}
+		}
+		bufOK := func(b ast.Expr, pt eng.Point) string {
+			v := rootLocal(f, b)
+			if v == nil {
+				return "len of " + f.Norm(b, &pt) + " (not the local buffer)"
+			}
+			if _, isId := ast.Unparen(b).(*ast.Ident); !isId {
+				return "len of " + f.Norm(b, &pt)
+			}
+			for _, d := range g.ReachingDefs(v, pt) {
+				if d.Kind == eng.DefParam {
+					return "it is the length of the raw parameter " + v.Name() + ", not of the enforced bytes"
+				}
+				if d.RHS == nil {
+					return "an opaque definition of the buffer reaches"
+				}
+				call, isCall := ast.Unparen(d.RHS).(*ast.CallExpr)
+				if !isCall {
+					return "buffer defined as " + f.Norm(d.RHS, &d.At)
+				}
+				switch f.CalleeID(call) {
+				case "builtin.make":
+					if len(call.Args) >= 2 {
+						if n0, ok := f.ConstInt(call.Args[1]); ok && n0 == 0 {
+							continue
+						}
+					}
+					return "buffer allocated with a non-zero length"
+				case "golang.org/x/text/secure/precis.Profile.Append":
+					if sel, ok := ast.Unparen(call.Fun).(*ast.SelectorExpr); ok && f.Norm(sel.X, nil) == "var:golang.org/x/text/secure/precis.UsernameCaseMapped" && d.Index == 0 {
+						continue
+					}
+					return "buffer is the result of another profile's Append"
+				default:
+					return "buffer defined by " + f.CalleeID(call) + " (more than the enforced localpart)"
+				}
+			}
+			return ""
+		}
+		for _, val := range vals {
+			n++
+			bad := ""
+			var check func(e ast.Expr, pt eng.Point, depth int) string
+			check = func(e ast.Expr, pt eng.Point, depth int) string {
+				if depth > 3 {
+					return "definition chain too long"
+				}
+				if k, ok := f.ConstInt(e); ok && k == 0 {
+					return ""
+				}
+				switch x := ast.Unparen(e).(type) {
+				case *ast.CallExpr:
+					if f.CalleeID(x) == "builtin.len" && len(x.Args) == 1 {
+						return bufOK(x.Args[0], pt)
+					}
+					return "value is " + f.Norm(e, &pt)
+				case *ast.Ident:
+					v, _ := f.Info().ObjectOf(x).(*types.Var)
+					if v == nil || !eng.IsLocal(v) {
+						return "value is " + f.Norm(e, &pt)
+					}
+					for _, d := range g.ReachingDefs(v, pt) {
+						if d.Kind == eng.DefZero {
+							continue
+						}
+						if d.RHS == nil || d.Kind != eng.DefPlain {
+							return "opaque definition of " + x.Name
+						}
+						if w := check(d.RHS, d.At, depth+1); w != "" {
+							return w
+						}
+					}
+					return ""
+				}
+				return "value is " + f.Norm(e, &pt)
+			}
+			bad = check(val.e, val.pt, 0)
+			c.r.Check(id, f, "stored localpart length", "K: locallen is zero or the length of the buffer that holds exactly the PRECIS-enforced localpart", val.e.Pos(), bad == "", bad)
+		}
+	}
+	c.r.Floor(id, "stores of the localpart length in New/WithLocal", n, 2)
+}
+
+// c11NoRawPartAppended (C11.12, also C18.13): the bytes of an address are the
+// ENFORCED parts. In New and the With* constructors no raw parameter string is
+// appended to (or copied into) the address buffer: a part reaches the buffer
+// through its PRECIS profile's Append or after it was re-assigned from
+// normalizeDomainpart. A validation-only call (Profile.String with the result
+// dropped) followed by append(data, resourcepart...) stores the nickname as
+// typed: "Amélie" stays decomposed, the room answers for the composed
+// form and muc's table, keyed by the address string, never finds the channel.
+func c11NoRawPartAppended(c *cx, id string) {
+	n := 0
+	for _, name := range []string{"New", "JID.WithLocal", "JID.WithDomain", "JID.WithResource"} {
+		f := c.fn(id, "jid", name)
+		if f == nil {
+			continue
+		}
+		g := f.Graph()
+		rawParam := func(e ast.Expr, pt eng.Point) *types.Var {
+			x := ast.Unparen(e)
+			if cv, ok := x.(*ast.CallExpr); ok && len(cv.Args) == 1 {
+				if tv, isConv := f.Info().Types[cv.Fun]; isConv && tv.IsType() {
+					x = ast.Unparen(cv.Args[0])
+				}
+			}
+			idn, ok := x.(*ast.Ident)
+			if !ok {
+				return nil
+			}
+			v, _ := f.Info().ObjectOf(idn).(*types.Var)
+			if v == nil {
+				return nil
+			}
+			if _, isParam := c11ParamIndex(f, v); !isParam {
+				return nil
+			}
+			if bt, ok := v.Type().Underlying().(*types.Basic); !ok || bt.Kind() != types.String {
+				return nil
+			}
+			for _, d := range g.ReachingDefs(v, pt) {
+				if d.Kind != eng.DefParam {
+					return nil // re-assigned (normalised) on some path: decided by C11.3
+				}
+			}
+			return v
+		}
+		for _, cl := range f.AllCalls() {
+			cid := f.CalleeID(cl)
+			pt, ok := g.Where(cl)
+			if !ok {
+				continue
+			}
+			switch cid {
+			case "builtin.append":
+				for _, a := range cl.Args[1:] {
+					if v := rawParam(a, pt); v != nil {
+						n++
+						c.r.Check(id, f, "append of parameter "+v.Name(), "K: no raw part is appended to the address buffer (parts enter it through their profile's Append or normalizeDomainpart)", cl.Pos(), false, "the part is stored as given, not in its enforced form: the address is not canonical")
+					}
+				}
+			case "builtin.copy":
+				if len(cl.Args) == 2 {
+					if v := rawParam(cl.Args[1], pt); v != nil {
+						n++
+						c.r.Check(id, f, "copy of parameter "+v.Name(), "K: no raw part is copied into the address buffer", cl.Pos(), false, "the part is stored as given, not in its enforced form")
+					}
+				}
+			}
+		}
+	}
+	c.r.Note("%s: %d appends of raw parameters in the jid constructors (expected 0)", id, n)
 }
